@@ -4,7 +4,7 @@ from core import Case
 from . import wiregen as W
 
 ID = "C08"
-SPEC_IS_ORACLE = lambda c: c.cmd in ("BKDR", "BKDC")
+SPEC_IS_ORACLE = lambda c: c.cmd in ("BKDR", "BKDC", "BKDN")
 THEOREMS = [
     "Portus.C08.yields_function_of_datagrams", "Portus.C08.stale_bytes_irrelevant",
     "Portus.C08.yields_from_any_state", "Portus.C08.wellformed_datagrams_yield_messages",
@@ -134,6 +134,19 @@ def gen(ctx):
         items = [("0:" + it.split(":", 1)[1]) for it in gen_script(rng, maxd) if ":" in it and not it.endswith(":-")]
         if items:
             yield Case("BKDC", "F:%s %s" % (rng.choice(["00", "aa"]), " ".join(items)), tags=("chan-script",))
+    # the same loop over the REAL netlink transport; the netlink header of every other datagram claims more payload than was sent
+    # (round 6: the receive took the length from the header, so bytes of an earlier, longer datagram were framed again)
+    two = W.enc_measure(1, 9, [11, 12, 13]) + W.enc_measure(7, 9, [1, 2, 3])
+    one = W.enc_measure(2, 9, [21, 22, 23])
+    mark = struct.pack("<HHI", 255, 12, 3597) + b"done"
+    for fill in ("00", "aa"):
+        yield Case("BKDN", "F:%s 0:%s 0:%s 0:%s" % (fill, W.hx(two), W.hx(one), W.hx(mark)), tags=("netlink",))
+        yield Case("BKDN", "F:%s 0:%s 0:%s 0:%s 0:%s" % (fill, W.hx(one), W.hx(two + one), W.hx(one[:24]), W.hx(mark)), tags=("netlink",))
+    for _ in range(400 if ctx.thorough else 40):
+        items = [("0:" + it.split(":", 1)[1]) for it in gen_script(rng, maxd) if ":" in it and not it.endswith(":-")]
+        items = [it for it in items if 2 <= len(it) - 2 <= 1800]
+        if items:
+            yield Case("BKDN", "F:%s %s" % (rng.choice(["00", "aa"]), " ".join(items[:12])), tags=("netlink",))
     # every truncation point of a fixed two-datagram scenario (long create, then short tail)
     cr = W.enc_create(1, 2, 3, 4, 5, 6, 7, b"reno")
     ms = W.enc_measure(7, 1, [5])
